@@ -88,7 +88,11 @@ func runHistoryGo(kp *KeyPair, nu0 *big.Int, time0 int64, steps []any) string {
 					c := *e
 					evs[i] = &c
 				}
-				evs[k].E = new(big.Int).Add(evs[k].E, bi(2))
+				if st["bade"] != nil {
+					evs[k].E = unhx(st["bade"]) // a value of the attacker's choosing
+				} else {
+					evs[k].E = new(big.Int).Add(evs[k].E, bi(2))
+				}
 				u.Events = evs
 			}
 			// as received by a client: decoded accumulator not yet cached
@@ -252,6 +256,70 @@ func (b *histBuilder) mkbadevents(id string, from, to, k int) {
 	b.badev[id] = true
 	b.expect = append(b.expect, "update-ok")
 }
+// mkbadeventsVal: as mkbadevents, with event k of the window replaced by the given value
+func (b *histBuilder) mkbadeventsVal(id string, from, to, k int, val *big.Int) {
+	b.steps = append(b.steps, map[string]any{"t": "mkupdate", "u": id, "from": from, "to": to, "badevents": true, "badk": k, "bade": hx(val)})
+	b.upd[id] = [2]int{from, to}
+	b.badev[id] = true
+	b.expect = append(b.expect, "update-ok")
+}
+
+// chosenEventValuesOp: a genuine signed accumulator whose event list carries, at every position in
+// turn, a value chosen against a particular holder: a multiple of the holder's own value, the
+// genuine value extended by further bytes into such a multiple (same leading bytes), or zero. Were
+// the message accepted, the holder's never-revoked witness would be reported revoked. All values
+// have the full length of a revocation attribute.
+func chosenEventValuesOp(g *Rng, kp *KeyPair) Op {
+	full := func() *big.Int {
+		for {
+			x := g.exactBits(int(revocation.Parameters.AttributeSize))
+			x.SetBit(x, 0, 1)
+			if x.ProbablyPrime(20) {
+				return x
+			}
+		}
+	}
+	n := 4
+	b := newHistBuilder()
+	nu0 := randomQR(g, kp.pk.N)
+	var wes, evs []*big.Int
+	evs = append(evs, bi(1))
+	for i := 0; i <= n; i++ {
+		e := full()
+		wes = append(wes, e)
+		b.witness(fmt.Sprintf("w%d", i), e)
+		if i < n {
+			v := full()
+			evs = append(evs, v)
+			b.revoke(v)
+		}
+	}
+	k := 0
+	for from := 1; from <= n; from++ {
+		for to := from; to <= n; to++ {
+			target := from - 1 // the witness standing just behind the window: every event is processed
+			we := wes[target]
+			for pos := 0; pos <= to-from; pos++ {
+				orig := evs[from+pos]
+				shift := new(big.Int).Lsh(orig, 8*26)
+				r := new(big.Int).Mod(new(big.Int).Neg(shift), we)
+				for _, val := range []*big.Int{new(big.Int).Mul(orig, we), new(big.Int).Add(shift, r), bi(0), new(big.Int).Set(we)} {
+					id := fmt.Sprintf("cv%d", k)
+					k++
+					b.mkbadeventsVal(id, from, to, pos, val)
+					tmp := "t" + id
+					b.clone(fmt.Sprintf("w%d", target), tmp)
+					b.apply(tmp, id)
+					b.verifyw(tmp)
+				}
+			}
+		}
+	}
+	o := b.op(kp, nu0, "chosen-event-values")
+	o["fkey"] = "C10/chosen-event-values"
+	return o
+}
+
 func (b *histBuilder) corrupt(w string) {
 	b.steps = append(b.steps, map[string]any{"t": "corruptw", "w": w})
 	b.wit[w].corrupt = true
@@ -332,6 +400,7 @@ func genC09(g *Rng, tier string, emit func(Op)) {
 		emit(declKey(kp))
 		emit(declSk(kp))
 	}
+	emit(chosenEventValuesOp(g, keys[1]))
 	// history fetched in chunks: an update for from..n gets the events lo..hi put in front
 	// (adjacent or overlapping, in memory or from the wire with its product) and is then applied to a
 	// witness that stands right before lo, and to one further back (which must get an error)
